@@ -75,4 +75,59 @@ theorem getNBest_all_noTie {votes : Votes} {n : Nat} (h : votes.length ≤ n) :
   obtain ⟨p, _, rfl⟩ := List.mem_map.1 hs
   exact ⟨p.1, rfl⟩
 
+/-- the candidates a place names: itself, or the members of a tie -/
+def slotMembers : Slot → List Cand
+  | .cand c => [c]
+  | .tie cs => cs
+
+/-- **one seat goes to maximal entries only**: whoever is listed for a single seat — alone or in a
+    reported tie — has a value no other entry exceeds -/
+theorem getNBest_one_max (votes : Votes) :
+    ∀ s ∈ getNBest votes 1, ∀ c ∈ slotMembers s, ∃ x, (c, x) ∈ votes ∧ ∀ p ∈ votes, p.2 ≤ x := by
+  have hd := sortDesc_desc votes
+  have hmem : ∀ p, p ∈ sortDesc votes ↔ p ∈ votes := fun p => mem_sortDesc
+  unfold getNBest
+  simp only
+  cases hs : sortDesc votes with
+  | nil => simp
+  | cons a rest =>
+    rw [hs] at hd hmem
+    have hmax : ∀ p ∈ votes, p.2 ≤ a.2 := by
+      intro p hp
+      rcases List.mem_cons.1 ((hmem p).2 hp) with rfl | h
+      · exact le_refl _
+      · exact (List.pairwise_cons.1 hd).1 p h
+    have ha : a ∈ votes := (hmem a).1 (by simp)
+    cases rest with
+    | nil =>
+      simp only [List.length_cons, List.length_nil, Nat.zero_add, gt_iff_lt, Nat.lt_irrefl, if_false, List.map_cons,
+        List.map_nil, List.mem_singleton]
+      rintro s rfl c hc
+      simp only [slotMembers, List.mem_singleton] at hc
+      subst hc
+      exact ⟨a.2, ha, hmax⟩
+    | cons b rest' =>
+      have hlen : (a :: b :: rest').length > 1 := by simp
+      rw [if_pos hlen]
+      simp only [Nat.sub_self, List.getElem?_cons_zero, List.getElem?_cons_succ]
+      by_cases hba : b.2 = a.2
+      · rw [if_pos hba]
+        have htw : (List.takeWhile (fun p => decide (p.2 ≠ a.2)) (a :: b :: rest')).length = 0 := by
+          simp [List.takeWhile]
+        rw [htw]
+        simp only [List.take_zero, List.map_nil, List.nil_append, Nat.sub_zero, List.replicate_one,
+          List.mem_singleton]
+        rintro s rfl c hc
+        simp only [slotMembers, List.mem_map, List.mem_filter, decide_eq_true_eq] at hc
+        obtain ⟨p, ⟨hp, hpv⟩, rfl⟩ := hc
+        refine ⟨a.2, ?_, hmax⟩
+        rw [← hpv]
+        exact (hmem p).1 hp
+      · rw [if_neg hba]
+        simp only [List.take_succ_cons, List.take_zero, List.map_cons, List.map_nil, List.mem_singleton]
+        rintro s rfl c hc
+        simp only [slotMembers, List.mem_singleton] at hc
+        subst hc
+        exact ⟨a.2, ha, hmax⟩
+
 end VL
